@@ -12,6 +12,7 @@ import (
 	"flag"
 	"fmt"
 	"math"
+	"os"
 	"regexp"
 	"runtime"
 	"runtime/debug"
@@ -70,7 +71,7 @@ var (
 	seed     int64
 	selftest bool
 	allocCap = uint64(256 << 20)
-	deadline = 5 * time.Second
+	deadline = 20 * time.Second
 	distinct = map[string]struct{}{}
 	variantTag string // e.g. the chunking of a stream input: part of the replay, not of the signature
 )
@@ -277,6 +278,9 @@ func main() {
 	if *child {
 		res = vh.NewResult()
 		deadline = 15 * time.Second // a stuck decoder ends the child anyway; be generous under load
+		if d, err := time.ParseDuration(os.Getenv("C16_CHILD_DEADLINE")); err == nil {
+			deadline = d
+		}
 		debug.SetMemoryLimit(math.MaxInt64) // the address-space limit is the guard here; a soft limit only makes the GC thrash
 		childMain()
 		return
